@@ -153,6 +153,18 @@ impl C04 {
         if dec.cluster_map() != &code.cluster_map[..] {
             return fail(o, "cluster-map", format!("got {:?} expected {:?}", dec.cluster_map(), code.cluster_map));
         }
+        // single_token(cluster) = Some(t) promises that every value of that cluster is t (callers then skip reading)
+        for (i, &(ctx, want)) in case.expect.iter().enumerate() {
+            let cluster = code.cluster_map[ctx as usize];
+            if let Some(t) = dec.single_token(cluster) {
+                o.classes.push("single-token-shortcut".into());
+                if t != want {
+                    return fail(o, "single-token-claim", format!("single_token(cluster {cluster}) = Some({t}) but value {i} of that cluster is {want}; configs={:?} notes={:?}", code.configs, code.notes));
+                }
+            }
+        }
+        o.classes.sort();
+        o.classes.dedup();
         if explicit_begin {
             if let Err(e) = dec.begin(&mut bs) {
                 return fail(o, "begin-rejected", e.to_string());
